@@ -243,6 +243,51 @@ def body_fault(case):
     return labels
 
 
+def body_interleaved(case):
+    """Harness-owned schedule for two events evaluated on ONE kernel object (what the threaded scheduler does with
+    the partitions of a batch): the first evaluation is suspended after its k-th line inside the package, the second
+    runs to completion, the first resumes. Both must return what they return on their own. Cloud tops differ per event."""
+    from ..interleave import run_interleaved
+
+    det, dtype = case["det"], case.get("dtype", "float32")
+    k = kernel(det, dtype)
+    evs = []
+    for g, le, top in zip(case["geo"][:2], case["energies"][:2], case["tops"]):
+        evs.append((POOL_BETA[g % len(POOL_BETA)], POOL_ALT[(g // len(POOL_BETA)) % len(POOL_ALT)], energy(le), top))
+    if len(evs) < 2:
+        evs.append(evs[0][:3] + (case["tops"][-1],))
+
+    def one(ev, marker):
+        b, a, e, top = ev
+        with quiet():
+            return k.run(b, a, e, float(marker), -float(marker), None if top is None else (lambda la, lo: top))
+
+    with cut("CphotAng.run (on its own)"):
+        alone = [tuple(np.asarray(x).tobytes() for x in one(ev, i)) for i, ev in enumerate(evs)]
+    labels = {"kernel_" + dtype}
+    for k_ in case["preempt"]:
+        o = run_interleaved(lambda: one(evs[0], 0), lambda: one(evs[1], 1), k_)
+        for exc, who in ((o.a_exc, "suspended"), (o.b_exc, "overlapping")):
+            if exc is not None:
+                raise Violation(f"the {who} one of two overlapping evaluations on one kernel object raised {type(exc).__name__}: {str(exc)[:200]} (suspended after {k_} lines)")
+        got = [tuple(np.asarray(x).tobytes() for x in o.a), tuple(np.asarray(x).tobytes() for x in o.b)]
+        for i, who in ((0, "suspended"), (1, "overlapping")):
+            if got[i] != alone[i]:
+                b, a, e, top = evs[i]
+                vals = (o.a, o.b)[i]
+                raise Violation(
+                    f"two overlapping evaluations on one kernel object (detector {det} km, {dtype}): the {who} one (beta={math.degrees(b):.3f} deg alt={a} km E={e!r} cloud top {top}) returns ({float(vals[0])!r}, {float(vals[1])!r}), "
+                    f"on its own ({float(np.frombuffer(alone[i][0], dtype=np.asarray(vals[0]).dtype)[0])!r}, {float(np.frombuffer(alone[i][1], dtype=np.asarray(vals[1]).dtype)[0])!r}); first evaluation suspended after {k_} of {o.lines} lines"
+                )
+        if o.reached:
+            labels.add("preempted")
+    if evs[0][3] != evs[1][3]:
+        labels.add("different_cloud_tops")
+    if (evs[0][0], evs[0][1]) != (evs[1][0], evs[1][1]):
+        labels.add("different_geometry")
+    return labels
+
+
 def batch_strategy(max_n, scheds):
     return st.fixed_dictionaries(
         {
@@ -268,6 +313,24 @@ SUBCHECKS = [
         lambda labels: "non_identity_order" in labels,
         {"quick": 64, "thorough": 1600},
         doc="harness-owned scheduler: partition tasks executed in a drawn priority order; batch == one-at-a-time bit for bit; object state unchanged",
+        shrink=False,
+    ),
+    SubCheck(
+        "interleaved_evaluations",
+        st.fixed_dictionaries(
+            {
+                "det": st.sampled_from([525.0, 33.0, 33.0, 2000.0, 400.0]),
+                "dtype": st.sampled_from(["float32", "float32", "float64"]),
+                "geo": st.lists(st.integers(0, 35), min_size=2, max_size=2),
+                "energies": st.lists(st.floats(-2.0, 4.0), min_size=2, max_size=2),
+                "tops": st.lists(st.one_of(st.none(), st.floats(0.0, 18.0), st.sampled_from([-math.inf, math.inf, 3.0])), min_size=2, max_size=2),
+                "preempt": st.lists(st.one_of(st.integers(0, 60), st.integers(0, 600), st.integers(0, 4000)), min_size=2, max_size=4),
+            }
+        ),
+        body_interleaved,
+        lambda labels: "preempted" in labels,
+        {"quick": 60, "thorough": 2400},
+        doc="harness-owned thread schedule: evaluation A on a kernel object is suspended after its k-th package line (k generated), evaluation B (other geometry, energy, cloud top) runs on the same object, A resumes; both == their results on their own, bit for bit",
         shrink=False,
     ),
     SubCheck(
